@@ -126,6 +126,26 @@ def tlc_mc_split(ck, label, what, sched_sink, timeout=900, **kw):
     return res
 
 
+def in_parallel(jobs):
+    """run independent generator jobs (each one or two TLC processes) in threads; returns {name: result}"""
+    import threading
+    box, errs, ts = {}, [], []
+    for name, fn in jobs.items():
+        def run(name=name, fn=fn):
+            try:
+                box[name] = fn()
+            except Exception as e:
+                errs.append(e)
+        t = threading.Thread(target=run)
+        t.start()
+        ts.append(t)
+    for t in ts:
+        t.join()
+    if errs:
+        raise errs[0]
+    return box
+
+
 def schedules_from(path):
     """distinct fault histories printed by the generator, shortest first, deterministic order"""
     seen = {}
